@@ -7,19 +7,24 @@
 package main
 
 import (
+	"bufio"
 	"encoding/hex"
 	"encoding/json"
 	"fmt"
+	"net"
 	"net/url"
 	"runtime"
 	"strconv"
 	"strings"
 	"sync"
 	"sync/atomic"
+	"time"
 
 	"github.com/aptpod/iscp-go/internal/vh/lib"
 	"github.com/aptpod/iscp-go/transport"
 	"github.com/aptpod/iscp-go/transport/compress"
+	"github.com/aptpod/iscp-go/transport/websocket"
+	wsgorilla "github.com/aptpod/iscp-go/transport/websocket/gorilla"
 )
 
 // ---------- cases ----------
@@ -103,6 +108,8 @@ func eval(c rcase) []viol {
 		return evalRoundTrip(c.Carrier, *c.P)
 	case "badid":
 		return evalBadID(c.Carrier, *c.P)
+	case "backend-url":
+		return evalBackendURL(c.Carrier, c.P.TID)
 	case "compress":
 		return evalCompress(*c.P)
 	case "dial":
@@ -200,6 +207,61 @@ func keysDiffering(a, b []pair) string {
 
 // evalRoundTrip: the library marshals a valid set; the marshalled form must be the documented one
 // (reference encoder) and must be read back unchanged, by the library's reader.
+// evalBackendURL: the WebSocket back-ends get the URL the dialer built (ws://host/path?query) and must request exactly
+// that: a local listener records the request line of the upgrade request.
+func evalBackendURL(backend, tid string) (vs []viol) {
+	ln, err := net.Listen("tcp", "127.0.0.1:0")
+	if err != nil {
+		return []viol{{"C17.harness:listen", err.Error()}}
+	}
+	defer ln.Close()
+	got := make(chan string, 1)
+	go func() {
+		c, err := ln.Accept()
+		if err != nil {
+			got <- ""
+			return
+		}
+		defer c.Close()
+		c.SetDeadline(time.Now().Add(5 * time.Second))
+		line, _ := bufio.NewReader(c).ReadString('\n')
+		got <- line
+	}()
+	q := url.Values{}
+	q.Set("tid", tid)
+	target := "/" + tid + "/connect?" + q.Encode()
+	u := "ws://" + ln.Addr().String() + target
+	var dial func(websocket.DialConfig) (websocket.Conn, error)
+	switch backend {
+	case "gorilla":
+		dial = wsgorilla.DialWithTLS
+	}
+	done := make(chan struct{})
+	go func() {
+		defer close(done)
+		defer func() { recover() }()
+		if c, err := dial(websocket.DialConfig{URL: u}); err == nil && c != nil {
+			c.Close()
+		}
+	}()
+	var line string
+	select {
+	case line = <-got:
+	case <-time.After(10 * time.Second):
+		return []viol{{"C17.backend-url:no-request@" + backend, "the back-end never connected to the listener for " + u}}
+	}
+	ln.Close()
+	select {
+	case <-done:
+	case <-time.After(10 * time.Second):
+	}
+	f := strings.Fields(line)
+	if len(f) < 2 || f[1] != target {
+		return []viol{{"C17.backend-url:rewritten@" + backend, fmt.Sprintf("dial of %q requested %q, expected request target %q", u, line, target)}}
+	}
+	return nil
+}
+
 // evalBadID: ids that are not valid UTF-8 on the writer side. The writer may refuse them; what it must not do is
 // send a different id without saying so.
 func evalBadID(carrier string, p pset) (vs []viol) {
@@ -718,6 +780,15 @@ func main() {
 			}
 		}
 	})
+	// 1b''. the WebSocket back-ends request the URL they are given (ids and paths may contain "http", "ws", ...)
+	// (only one back-end package can be linked into a binary: each registers itself as THE dial function at init; the
+	// gorilla one is the only one that touches the URL it is given)
+	for _, be := range []string{"gorilla"} {
+		for _, tid := range []string{"plain", "edge-http-gateway-1", "https-node", "ws-http-ws", "xhttp"} {
+			p := pset{TID: tid}
+			r.run("websocket-backend-url-pass-through", rcase{Kind: "backend-url", Carrier: be, P: &p})
+		}
+	}
 	// 1c. length prefix boundary of the binary form
 	for _, n := range []int{65534, 65535, 65536, 65537, 70000} {
 		r.run("binary-length-boundary", rcase{Kind: "longvalue", Len: n})
